@@ -29,7 +29,8 @@ DIRECTED = ["lyric x", "section x", "x", "lyric", "section", "lyric ", "section 
 
 def required(tier):
     return ["kind:lyric", "kind:section", "kind:text", "kind:none", "inner_quote_in_lyric_or_section", "keyword_without_blank_is_text",
-            "empty_remainder", ">=2_kinds_in_one_chart", "repeated_tick", "concurrent_stage", "ticks_not_in_file_order_within_one_tempo_segment"]
+            "empty_remainder", ">=2_kinds_in_one_chart", "repeated_tick", "concurrent_stage", "ticks_not_in_file_order_within_one_tempo_segment",
+            "long_runs_of_one_kind_then_another"]
 
 
 def shards(tier, seed):
@@ -52,9 +53,13 @@ def make_case(rng, i):
         # for lines whose ticks DEcrease as well ("forall ticks; forall line orders")
         rng.shuffle(ticks)
     globals_, lines, texts = [], [], []
-    for t in ticks:
+    runs = gen.run_structured_kinds(rng, len(ticks)) if (len(ticks) >= 40 and i % 3 == 0) else None
+    for j, t in enumerate(ticks):
         r = rng.random()
-        if r < 0.3:
+        if runs is not None and r < 0.9:
+            kind, value = runs[j], f"run{j}"
+            raw = gen.raw_event_text(kind, value)
+        elif r < 0.3:
             raw, kind, value = gen.classify_text(rng.choice(DIRECTED))
         else:
             raw, kind, value = gen.gen_event_text(rng, hostile=r < 0.85)
@@ -97,6 +102,13 @@ def run_shard(shard, rec, tier, seed):
                 rec.cls("repeated_tick")
             if any(a > b for a, b in zip(ticks, ticks[1:])):
                 rec.cls("ticks_not_in_file_order_within_one_tempo_segment")
+            ks = [k for _, k in texts if k != "none"]
+            run = best = 1
+            for a, b in zip(ks, ks[1:]):
+                run = run + 1 if a == b else 1
+                best = max(best, run)
+            if best >= 17 and len(set(ks)) >= 2:
+                rec.cls("long_runs_of_one_kind_then_another")
         if i < 2:
             rec.sample({"events_section": [ln for ln in case["text"].splitlines() if " = E " in ln][:8]})
         if rec.full:
